@@ -14,17 +14,27 @@ import (
 )
 
 var (
-	engOnce sync.Once
-	eng     *guards.Engine
+	engMu    sync.Mutex
+	engs     = map[*load.Program]*guards.Engine{}
+	engOrder []*load.Program
 )
 
-// guardsEngine builds E3 once per process.
+// guardsEngine builds E3 once per loaded program (the self-test tier loads one program per seeded variant).
 func guardsEngine(P *load.Program) *guards.Engine {
-	engOnce.Do(func() {
-		cg := P.CallGraph()
-		eng = guards.NewEngine(P.SSA, cg, load.InModule, P.GOARCH)
-	})
-	return eng
+	engMu.Lock()
+	defer engMu.Unlock()
+	if e, ok := engs[P]; ok {
+		return e
+	}
+	// keep the engines of the two most recent programs only (repository + fixture, or one seeded variant at a time)
+	if len(engOrder) >= 2 {
+		delete(engs, engOrder[0])
+		engOrder = engOrder[1:]
+	}
+	e := guards.NewEngine(P.SSA, P.CallGraph(), load.InModule, P.GOARCH)
+	engs[P] = e
+	engOrder = append(engOrder, P)
+	return e
 }
 
 func guardFnName(f *ssa.Function) string {
